@@ -40,8 +40,10 @@ func (t *tree) lookupAbs(p string) *pw.TNode {
 		return t.src[p[len(pw.SrcRoot)+1:]]
 	case strings.HasPrefix(p, pw.ExtRoot+"/"):
 		return t.ext[p[len(pw.ExtRoot)+1:]]
-	case p == "/w/src-evil" || p == "/w":
+	case p == "/w/src-evil" || p == "/w" || p == "/w/hist3" || p == "/w/hist3/ext":
 		return &pw.TNode{Root: "evil", Kind: "dir"}
+	case p == "/w/hist3/ext/file":
+		return &pw.TNode{Root: "evil", Kind: "file", Tok: "OUT-7;"}
 	case p == "/w/src-evil/secret":
 		return &pw.TNode{Root: "evil", Kind: "file", Tok: "OUT-9;"}
 	}
@@ -67,6 +69,23 @@ func buildArena(sc *pw.Scenario) error {
 	os.WriteFile("/w/hist1/y", []byte("hy"), 0o644)
 	os.WriteFile("/w/hist2/.terraformignore", []byte(""), 0o644)
 	os.WriteFile("/w/hist2/z", []byte("hz"), 0o644)
+	// another root for a shared Packer with a relative allow-list entry
+	os.MkdirAll("/w/hist3/inner", 0o755)
+	os.MkdirAll("/w/hist3/ext", 0o755)
+	os.WriteFile("/w/hist3/ext/file", []byte("OUT-7;"), 0o644)
+	os.Symlink("../ext/file", "/w/hist3/inner/l")
+	os.WriteFile("/w/hist3/inner/f", []byte("h3"), 0o644)
+	// trees with other one-line rule files, packed by concurrent callers
+	os.MkdirAll("/w/hist4", 0o755)
+	os.WriteFile("/w/hist4/.terraformignore", []byte("b\n"), 0o644)
+	for _, n := range []string{"a", "b", "c", "d"} {
+		os.WriteFile("/w/hist4/"+n, []byte("h4"+n), 0o644)
+	}
+	os.MkdirAll("/w/big", 0o755)
+	os.WriteFile("/w/big/.terraformignore", []byte("a\n!b\nc*\n"), 0o644)
+	for i := 0; i < 30; i++ {
+		os.WriteFile(fmt.Sprintf("/w/big/f%02d", i), bytes.Repeat([]byte{byte('a' + i%26), byte('0' + i%10)}, 1500+37*i), 0o644)
+	}
 	order := pw.ParentsFirst(sc.Tree)
 	for _, i := range order {
 		n := sc.Tree[i]
@@ -166,12 +185,19 @@ type result struct {
 	calls   int
 }
 
+// sharedPacker, when non-nil, is the one *Packer all Pack calls of the scenario use.
+var sharedPacker *slug.Packer
+
 func doPack(o pw.Opts, src string, w io.Writer) (meta *slug.Meta, err error, pan interface{}) {
 	defer func() {
 		if r := recover(); r != nil {
 			pan = r
 		}
 	}()
+	if sharedPacker != nil {
+		meta, err = sharedPacker.Pack(src, w)
+		return
+	}
 	if o.Legacy && len(o.Allow) == 0 {
 		meta, err = slug.Pack(src, w, o.Deref)
 		return
@@ -277,9 +303,46 @@ func Run(sc *pw.Scenario) *simkit.Outcome {
 	out.States = []string{simkit.HashString(shapeOf(sc))}
 
 	// ---- history: earlier operations in this process ----
+	sharedPacker = nil
+	if sc.SharedPacker && !sc.Opts.Legacy {
+		sharedPacker, _ = packer(sc.Opts)
+	}
 	for _, h := range sc.History {
 		sink := simkit.NewSimWriter("hist", simkit.WriterPlan{}, simkit.NewLog(), nil)
 		switch {
+		case h == "shared:hist3":
+			// the same Packer serves another root first (its relative allow-list entry means something else there)
+			doPack(sc.Opts, "/w/hist3/inner", sink)
+		case h == "dot-other-tree":
+			// the same spelling "." denotes another tree whose rule file has equal size and mtime
+			if sc.Rules != nil {
+				os.MkdirAll("/w/hist5", 0o755)
+				other := strings.Map(func(r rune) rune {
+					switch r {
+					case 'a':
+						return 'b'
+					case 'b':
+						return 'a'
+					case 'c':
+						return 'd'
+					case 'd':
+						return 'c'
+					case 'm':
+						return 'n'
+					case 't':
+						return 'f'
+					}
+					return r
+				}, *sc.Rules)
+				os.WriteFile("/w/hist5/.terraformignore", []byte(other), 0o644)
+				for _, n := range []string{"a", "b", "c", "d"} {
+					os.WriteFile("/w/hist5/"+n, []byte("h5"+n), 0o644)
+				}
+				setTimes("/w/hist5/.terraformignore", 1300000001, 0)
+				os.Chdir("/w/hist5")
+				doPack(sc.Opts, ".", sink)
+				os.Chdir("/")
+			}
 		case h == "neg-first":
 			doPack(pw.Opts{Ignore: true}, "/w/hist1", sink)
 		case h == "empty-rules":
@@ -338,6 +401,20 @@ func Run(sc *pw.Scenario) *simkit.Outcome {
 			i := i
 			sched.Go(fmt.Sprintf("pack%d", i), func(tk *simkit.Task) { runOne(i, sched, sched) })
 		}
+		for oi, o := range sc.Others {
+			o := o
+			sched.Go(fmt.Sprintf("other%d-%s", oi, o), func(tk *simkit.Task) {
+				w := simkit.NewSimWriter("other-"+o, simkit.WriterPlan{}, log, sched)
+				save := sharedPacker
+				_ = save
+				p, _ := packer(pw.Opts{Ignore: true})
+				func() {
+					defer func() { recover() }()
+					p.Pack("/w/"+o, w)
+				}()
+				log.Add(tk.ID, "other-pack-done", o)
+			})
+		}
 		if len(sc.Chdirs) > 0 {
 			sched.Go("chdir", func(tk *simkit.Task) {
 				for _, d := range sc.Chdirs {
@@ -391,6 +468,7 @@ func Run(sc *pw.Scenario) *simkit.Outcome {
 		checkMeta(out, i, r)
 		checkIgnore(out, sc, i, r, t, rules)
 		checkLinksAndProvenance(out, sc, i, r, t)
+		checkDerefComplete(out, sc, i, r, t)
 		if !faulty {
 			checkModelList(out, sc, i, r, t, rules)
 		}
@@ -812,10 +890,113 @@ func checkLinksAndProvenance(out *simkit.Outcome, sc *pw.Scenario, i int, r *res
 					}
 					out.Violate("C05", "out-link-stored", cls, fmt.Sprintf("run %d: link entry %s -> %q leaves the archive root when read at its own position", i, p, e.Link))
 				}
-			} else if escaped {
-				out.Probe("link-detour-through-parent")
+			} else if escaped && !allowListed(final, sc.Opts.Allow) {
+				// it comes back only by way of the root's own directory name, which is not part of the archive
+				cls := "relative-climbs-above-root"
+				if _, ok := t.src[p]; !ok {
+					cls = "relative-in-dereferenced-dir"
+				}
+				out.Violate("C05", "out-link-stored", cls, fmt.Sprintf("run %d: link entry %s -> %q climbs above the archive root when read at its own position (it re-enters only through the source directory's own name)", i, p, e.Link))
 			}
 			out.Probe("link-entry-stored")
+		}
+	}
+}
+
+// checkDerefComplete: with dereferencing, what lies behind an out-of-tree link
+// is copied into the slug - also behind links nested in a dereferenced directory.
+func checkDerefComplete(out *simkit.Outcome, sc *pw.Scenario, i int, r *result, t *tree) {
+	if !sc.Opts.Deref {
+		return
+	}
+	if sc.Opts.Ignore && sc.Rules != nil {
+		return // which of these paths the rules remove is C03's business
+	}
+	byName := map[string]model.DEntry{}
+	for _, e := range r.ents {
+		byName[entryPath(e.Name)] = e
+	}
+	expectFile := func(arch, abs, tok string) {
+		if strings.Contains("/"+arch+"/", "/.git/") || strings.Contains("/"+arch+"/", "/.terraform/") {
+			return
+		}
+		e, ok := byName[arch]
+		switch {
+		case !ok:
+			out.Violate("C05", "deref-incomplete", "missing", fmt.Sprintf("run %d: dereferencing is on but %s (a copy of %s) is missing from the slug", i, arch, abs))
+		case e.Type == tar.TypeSymlink:
+			out.Violate("C05", "deref-incomplete", "stored-as-link", fmt.Sprintf("run %d: %s points out of the tree (to %s) and dereferencing is on, but it is stored as a link -> %q instead of a copy", i, arch, abs, e.Link))
+		case !bytes.Contains(e.Body, []byte(tok)):
+			out.Violate("C05", "deref-incomplete", "wrong-content", fmt.Sprintf("run %d: %s should be a copy of %s", i, arch, abs))
+		default:
+			out.Probe("deref-copy-verified")
+		}
+	}
+	var links []string
+	for p, n := range t.src {
+		if n.Kind == "link" && linkOut(p, n.Target) && !allowListed(linkAbs(p, n.Target), sc.Opts.Allow) {
+			links = append(links, p)
+		}
+	}
+	sort.Strings(links)
+	for _, lp := range links {
+		n := t.src[lp]
+		tn, tabs := resolveModelAbs(t, n.Abs(), 0)
+		if tn == nil {
+			continue
+		}
+		if tn.Kind == "file" && strings.HasPrefix(tn.Tok, "OUT-") {
+			expectFile(lp, tabs, tn.Tok)
+			continue
+		}
+		if tn.Kind != "dir" || !strings.HasPrefix(tabs, pw.ExtRoot+"/") {
+			continue
+		}
+		base := tabs[len(pw.ExtRoot)+1:]
+		var eps []string
+		for ep := range t.ext {
+			eps = append(eps, ep)
+		}
+		sort.Strings(eps)
+		for _, ep := range eps {
+			en := t.ext[ep]
+			if !strings.HasPrefix(ep, base+"/") {
+				continue
+			}
+			arch := lp + "/" + ep[len(base)+1:]
+			// skip anything below a nested link (only the first level of nesting is predicted)
+			nestedBelowLink := false
+			for q := ep; strings.Contains(q, "/"); {
+				q = q[:strings.LastIndex(q, "/")]
+				if len(q) > len(base) {
+					if x := t.ext[q]; x != nil && x.Kind == "link" {
+						nestedBelowLink = true
+					}
+				}
+			}
+			if nestedBelowLink {
+				continue
+			}
+			switch en.Kind {
+			case "file":
+				if strings.HasPrefix(en.Tok, "OUT-") {
+					expectFile(arch, pw.ExtRoot+"/"+ep, en.Tok)
+				}
+			case "link":
+				// judged where it lives on disk
+				var abs string
+				if strings.HasPrefix(en.Target, "/") {
+					abs = filepath.Clean(en.Target)
+				} else {
+					abs = filepath.Join(filepath.Dir(pw.ExtRoot+"/"+ep), en.Target)
+				}
+				if simkit.Under(abs, pw.SrcRoot) || allowListed(abs, sc.Opts.Allow) {
+					continue
+				}
+				if x, xabs := resolveModelAbs(t, pw.ExtRoot+"/"+ep, 0); x != nil && x.Kind == "file" && strings.HasPrefix(x.Tok, "OUT-") {
+					expectFile(arch, xabs, x.Tok)
+				}
+			}
 		}
 	}
 }
@@ -867,6 +1048,9 @@ func checkRejections(out *simkit.Outcome, sc *pw.Scenario, res []*result, t *tre
 	for i, r := range res {
 		if r == nil || r.pan != nil || r.devErr {
 			continue
+		}
+		if rn := sc.Runs[i]; rn.Spelling == "symlink-rel" && (rn.Cwd != "/w" || sc.Conc || histChdir(sc)) {
+			continue // the source itself may not resolve (known finding of C16): nothing is reached
 		}
 		out.Probe("out-of-tree-link-without-deref")
 		var ise *slug.IllegalSlugError
